@@ -73,6 +73,13 @@ def specStep (s : Stored) : SetOp → Option Stored
   | .setFlags f => some ⟨s.addr, f⟩
   | .setUnused => some ⟨0#64, 0#64⟩
 
+/-- The spec's run over a whole history (`none` as soon as a call must panic). -/
+def specRun (s : Stored) : List SetOp → Option Stored
+  | [] => some s
+  | op :: rest => match specStep s op with
+    | some s' => specRun s' rest
+    | none => none
+
 /-- The explicit reading of "last": scan the history from its end. -/
 def lastAddr? : List SetOp → Option (BitVec 64)   -- argument: history, most recent call first
   | [] => none
